@@ -116,6 +116,11 @@ theorem encodeHeader_safe (code : Nat) (hcode : SafeByte code) (cache : List Nat
       · rw [if_pos hn] at hb; exact encodeUserId_safe uid b hb
       · rw [if_neg hn] at hb; simp at hb
 
+theorem codeOpt_lt (d : Option Nat) (h : ∀ x, d = some x → x ∈ registryCodes) : d.getD 32 < 256 := by
+  cases d with
+  | none => decide
+  | some x => exact (registry_facts x (h x rfl)).2.1.2.2
+
 /-- everything the client writes in front of the domain is name-safe -/
 theorem encodeReq_safe (b32 up : Codec) (sb : b32.Safe) (su : up.Safe) (cache : List Nat)
     (hc : ∀ b ∈ cache, SafeByte b) (r : Req) (hr : ReqOk r) :
@@ -125,15 +130,20 @@ theorem encodeReq_safe (b32 up : Codec) (sb : b32.Safe) (su : up.Safe) (cache : 
   | version ver =>
     rcases List.mem_append.mp hb with hb | hb
     · exact encodeHeader_safe 118 (by decide) cache hc 0 b hb
-    · exact sb.safe _ b hb
+    · exact sb.safe _ (bytes_le32 ver) b hb
   | options uid l m c down upc frag =>
     rcases List.mem_append.mp hb with hb | hb
     · exact encodeHeader_safe 111 (by decide) cache hc uid b hb
-    · exact sb.safe _ b hb
+    · obtain ⟨_, hd, hup, _⟩ := hr
+      exact sb.safe _ (bytes_append (bytes_cons (triByte_lt l) (bytes_cons (triByte_lt m) (bytes_cons (triByte_lt c)
+        (bytes_cons (codeOpt_lt down hd) (bytes_cons (codeOpt_lt upc hup) bytes_nil))))) (bytes_le32 _)) b hb
   | packet uid ack pkt =>
     rcases List.mem_append.mp hb with hb | hb
     · exact encodeHeader_safe 99 (by decide) cache hc uid b hb
-    · exact su.safe _ b hb
+    · refine su.safe _ (bytes_append (bytes_le16 ack) ?_) b hb
+      cases pkt with
+      | none => exact bytes_cons (by decide) bytes_nil
+      | some p => exact bytes_cons (by decide) (bytes_append (bytes_le16 p.1) (hr.2.2 p rfl).2)
   | downEnc code =>
     rcases List.mem_append.mp hb with hb | hb
     · exact encodeHeader_safe 121 (by decide) cache hc 0 b hb
@@ -145,7 +155,7 @@ theorem encodeReq_safe (b32 up : Codec) (sb : b32.Safe) (su : up.Safe) (cache : 
   | fragSize uid frag =>
     rcases List.mem_append.mp hb with hb | hb
     · exact encodeHeader_safe 114 (by decide) cache hc uid b hb
-    · exact sb.safe _ b hb
+    · exact sb.safe _ (bytes_le32 frag) b hb
 
 theorem encodeReq_ne_nil (b32 up : Codec) (cache : List Nat) (r : Req) : encodeReq b32 up cache r ≠ [] := by
   cases r <;> simp [encodeReq, encodeHeader]
